@@ -61,6 +61,11 @@ def build(ctx):
             continue
         w = cf.closure_writes(name)
         core_w = {p: v for p, v in w.items() if is_core(p)}
+        if core_w and name in fillers:
+            # a memo-filling method is a query by construction: it must not assign core state
+            ctx.ground(f"crystal.Crystal.{name}/assigns/query.pure", False, tag="F", clause="a memo-filling query assigns nothing reachable from unit_cell, space_group or asymmetric_unit",
+                       detail={p_: list(v_) for p_, v_ in core_w.items()}, witness={"query": name, "assigns": {p_: list(v_) for p_, v_ in core_w.items()}}, fn=fn(name))
+            continue
         if core_w:
             mutators.append((name, core_w))
             continue
@@ -136,6 +141,10 @@ def build(ctx):
         for field in memo_fields:
             ok = field in dels and dels[field] >= barrier
             filler = [m for m, f in fillers.items() if f == field][0]
+            if not ok and name not in {m_.split("(")[0] for m_ in history_kit()["MUTATORS"]}:
+                # neither recognised in the source nor callable by the run-time harness: undecided, not an alarm
+                ctx.undecided(f"crystal.Crystal.{name}/mutator.invalidates/{field}", f"deletion of {field} not recognised in {name} and no run-time harness calls {name}")
+                continue
             # not recognising the deletion in the source is not evidence of a stale memo (it may be spelled differently): the clause is then
             # decided on the real code by histories [filler, mutator, filler] compared with a fresh crystal
             ctx.pattern(f"crystal.Crystal.{name}/mutator.invalidates/{field}", ok,
@@ -160,6 +169,67 @@ def build(ctx):
         ctx.ground(f"crystal.Crystal.{name}/mutator.invalidates/stored_cif_data", not stale, tag="F",
                    clause=f"{name} assigns {sorted(comps)}: every CIF item computed from them is either refreshed by to_cif_data when it reuses properties['cif_data'] or the stored dictionary is dropped",
                    detail={"stale_keys": stale, "drops_cif_data": pops_cif}, witness={"mutator": name, "stale_cif_keys": stale}, fn=fn(name))
+
+    # (5) the three component objects (cell, space group, asymmetric unit) obey the same discipline inside their own classes:
+    #     methods the crystal's queries call on them assign nothing of the component; a memo kept by a component is dropped by every method that
+    #     assigns the component's constructor-initialised attributes
+    COMPONENTS = {"self.unit_cell": ("chmpy.crystal.unit_cell", "UnitCell"), "self.space_group": ("chmpy.crystal.space_group", "SpaceGroup"),
+                  "self.asymmetric_unit": ("chmpy.crystal.asymmetric_unit", "AsymmetricUnit")}
+    comp = {}
+    for path_, (mname, cname) in COMPONENTS.items():
+        try:
+            comp[path_] = frames.ClassFrames(source.load_module(mname), cname)
+        except Exception as e:  # noqa
+            ctx.notes.append(f"component class {cname} not analysed: {e!r}")
+    mutator_names = {m for m, _ in mutators}
+    for name, info in cf.info.items():
+        if name == "__init__" or name in mutator_names or "classmethod" in info.decorators or "staticmethod" in info.decorators:
+            continue
+        for (recv, meth), lines in sorted(info.component_calls.items()):
+            k = comp.get(recv)
+            if k is None or meth not in k.methods:
+                continue
+            init_w = {p_.split("[")[0] for p_ in k.closure_writes("__init__") if p_.count(".") >= 1} if "__init__" in k.methods else set()
+            init_w = {".".join(p_.split(".")[:2]) for p_ in init_w}
+            # stores into attributes the constructor does not initialise are memos of the component: governed by <Class>.<setter>/mutator.invalidates below
+            w = {p_: v_ for p_, v_ in k.closure_writes(meth).items() if ".".join(p_.split("[")[0].split(".")[:2]) in init_w}
+            ctx.ground(f"crystal.Crystal.{name}/calls/{COMPONENTS[recv][1]}.{meth}/query.pure", not w, tag="F",
+                       clause=f"{COMPONENTS[recv][1]}.{meth}, called by the query {name} on a component of the crystal, assigns nothing of that component (no attribute store, "
+                              "no in-place operation on its lists/arrays)", detail={p_: list(v_) for p_, v_ in w.items()},
+                       witness={"query": name, "component_method": f"{COMPONENTS[recv][1]}.{meth}", "writes": {p_: list(v_) for p_, v_ in w.items()}},
+                       fn=ctx.fn(COMPONENTS[recv][0], f"{COMPONENTS[recv][1]}.{meth}"))
+    for path_, k in comp.items():
+        cname = COMPONENTS[path_][1]
+        init_writes = {p_ for p_ in k.closure_writes("__init__")} if "__init__" in k.methods else set()
+        core_attrs = {p_.split("[")[0] for p_ in init_writes if p_.count(".") == 1}
+        memos, setters = {}, {}
+        for meth, info in k.info.items():
+            if meth == "__init__":
+                continue
+            for p_, v_ in info.writes.items():
+                base = p_.split("[")[0]
+                if base.count(".") != 1:
+                    continue
+                if base in core_attrs:
+                    setters.setdefault(meth, set()).add(base)
+                elif v_[1] not in ("delattr", "del"):
+                    memos.setdefault(base[5:], set()).add(meth)
+        cached = {m: i.decorators for m, i in k.info.items() if any("cache" in d for d in i.decorators)}
+        ctx.ground(f"{cname}/memo_fields/no_decorator_caches", not cached, tag="F", clause=f"no method of {cname} is memoised by a caching decorator", detail=cached,
+                   witness={"methods": cached})
+        for field, fillers_ in sorted(memos.items()):
+            for setter in sorted(setters):
+                dels = k.info[setter].memo_dels
+                closure_dels = set(dels)
+                for callee in k.closure_calls(setter):
+                    closure_dels |= set(k.info[callee].memo_dels) if callee in k.info else set()
+                ok = field in closure_dels or setter in fillers_
+                ctx.ground(f"{cname}.{setter}/mutator.invalidates/{field}", ok, tag="F",
+                           clause=f"{cname}.{setter} assigns {sorted(setters[setter])}; the attribute {field} kept by {sorted(fillers_)} must be dropped by it",
+                           detail={"memo_kept_by": sorted(fillers_)}, witness={"component": cname, "mutator": setter, "stale_memo": field,
+                                   "history": f"[{sorted(fillers_)[0]}(), {setter}(...), {sorted(fillers_)[0]}()]"}, fn=ctx.fn(COMPONENTS[path_][0], f"{cname}.{setter}"))
+        ctx.ground(f"{cname}/memo_fields/discovered", True, tag="F", clause=f"attributes of {cname} assigned outside the constructor's closure: {sorted(memos)} (each must be dropped by "
+                   f"the methods assigning {sorted(a_[5:] for a_ in core_attrs)})", detail={"memos": {f_: sorted(m_) for f_, m_ in memos.items()}, "setters": {m_: sorted(v_) for m_, v_ in setters.items()}})
 
     # export.fresh for the other writers: read core + memos only
     for name in ("to_shelx_string", "to_poscar_string", "to_cif_data"):
@@ -221,8 +291,11 @@ def _summ(v):
 
 
 def _core(c):
+    props = {k: (np.round(np.asarray(v, dtype=float), 9).tolist() if isinstance(v, np.ndarray) and v.dtype.kind in "fiu" else repr(v)[:200])
+             for k, v in sorted(c.asymmetric_unit.properties.items())}
     return (np.round(c.unit_cell.direct, 9).tolist(), c.space_group.international_tables_number, c.space_group.choice,
-            np.round(c.asymmetric_unit.positions, 9).tolist(), np.asarray(c.asymmetric_unit.atomic_numbers).tolist(), [str(x) for x in c.asymmetric_unit.labels])
+            [int(s.integer_code) for s in c.space_group.symmetry_operations],          # in their stored order
+            np.round(c.asymmetric_unit.positions, 9).tolist(), np.asarray(c.asymmetric_unit.atomic_numbers).tolist(), [str(x) for x in c.asymmetric_unit.labels], props)
 
 
 _KIT = {}
@@ -249,6 +322,8 @@ def history_kit():
         "unit_cell_molecules": lambda c: c.unit_cell_molecules(),
         "symmetry_unique_molecules": lambda c: c.symmetry_unique_molecules(),
         "slab": lambda c: c.slab(bounds=((0, 0, 0), (1, 1, 0))),
+        "slab_one_cell": lambda c: c.slab(bounds=((0, 0, 1), (0, 0, 1))),
+        "cell_volume": lambda c: c.unit_cell.volume(),
         "atoms_in_radius": lambda c: c.atoms_in_radius(4.0, origin=(0.3, 0.2, 0.1)),
         "density": lambda c: c.density,
         "to_shelx_string": lambda c: c.to_shelx_string(titl="t"),
@@ -270,7 +345,15 @@ def history_kit():
             structures[nm] = Crystal.load(str(TEST_FILES[nm]))
 
     def fresh_like(c):
-        return Crystal(copy.deepcopy(c.unit_cell), copy.deepcopy(c.space_group), copy.deepcopy(c.asymmetric_unit))
+        """A crystal rebuilt from the primitive data of c (lattice vectors, setting, sites): nothing memoised anywhere can be carried over."""
+        from chmpy.crystal import UnitCell, SpaceGroup, AsymmetricUnit
+        au = c.asymmetric_unit
+        props = {k: (np.array(v, copy=True) if isinstance(v, np.ndarray) else copy.deepcopy(v)) for k, v in au.properties.items()}
+        sg = SpaceGroup(c.space_group.international_tables_number, choice=c.space_group.choice)
+        if [int(s.integer_code) for s in sg.symmetry_operations] != [int(s.integer_code) for s in c.space_group.symmetry_operations]:
+            sg = copy.deepcopy(c.space_group)          # a group given by an explicit operation list (e.g. read from a file)
+        return Crystal(UnitCell(np.array(c.unit_cell.direct, copy=True)), sg, AsymmetricUnit(list(au.elements), np.array(au.positions, copy=True),
+                                                                                              labels=np.array(au.labels, copy=True), **props))
 
     qnames = list(QUERIES)
 
